@@ -2,6 +2,7 @@ package main
 
 import (
 	"fmt"
+	"strings"
 
 	"github.com/mfcochauxlaberge/jsonapi"
 )
@@ -74,8 +75,8 @@ func c15offending(types map[string][]jsonapi.Rel, order []string) int {
 
 func (m c15) run(c *Ctx, order []string, types map[string][]jsonapi.Rel, nilMaps map[string]bool, tag string) {
 	c.Count("evaluations")
-	sc := &jsonapi.Schema{}
 	nrels, twoWay := 0, 0
+	var built []jsonapi.Type
 	for _, tn := range order {
 		typ := jsonapi.Type{Name: tn}
 		if !nilMaps[tn] || len(types[tn]) > 0 {
@@ -102,7 +103,37 @@ func (m c15) run(c *Ctx, order []string, types map[string][]jsonapi.Rel, nilMaps
 				twoWay++
 			}
 		}
-		sc.Types = append(sc.Types, typ)
+		built = append(built, typ)
+	}
+	// three ways to the same schema: a literal list of types; AddType for each; AddType with a decoy type in a
+	// non-last slot that is looked up and removed again (so that anything the schema keeps about positions is stale)
+	sc := &jsonapi.Schema{}
+	how := strSeed(fmt.Sprint(order, nrels)) % 3
+	if how > 0 {
+		ok := true
+		if pi := Guard(func() {
+			for i, typ := range built {
+				if how == 2 && i == len(built)/2 {
+					if err := sc.AddType(jsonapi.Type{Name: "zz-decoy"}); err != nil {
+						ok = false
+					}
+				}
+				if err := sc.AddType(typ); err != nil {
+					ok = false
+				}
+			}
+			if how == 2 {
+				_ = sc.HasType("zz-decoy")
+				sc.RemoveType("zz-decoy")
+			}
+		}); pi != nil || !ok || len(sc.Types) != len(built) {
+			how = 0 // AddType may refuse what a literal can hold (it is free to): fall back to the literal
+		} else {
+			c.Count(fmt.Sprintf("schemas_built_with_addtype/%d", how))
+		}
+	}
+	if how == 0 {
+		sc = &jsonapi.Schema{Types: built}
 	}
 	want := c15offending(types, order)
 	before := schemaFingerprint(sc)
@@ -209,7 +240,15 @@ func (m c15) Case(c *Ctx, r *RNG) {
 		kind := r.Intn(9)
 		switch kind {
 		case 0:
+			// a missing target: unrelated name, or a near miss of an existing one (extension, prefix, case variant)
+			cands := []string{"missing", owner + "s", rel.ToType + "x", rel.ToType + rel.ToType, strings.ToUpper(rel.ToType), strings.TrimSuffix(rel.ToType, rel.ToType[max(len(rel.ToType)-1, 0):]), ""}
 			rel.ToType = "missing"
+			for _, cnd := range cands[r.Intn(len(cands)):] {
+				if _, exists := types[cnd]; !exists {
+					rel.ToType = cnd
+					break
+				}
+			}
 			tag = "missing-target"
 		case 1: // remove the inverse of a two-way relationship
 			if rel.ToName == "" {
